@@ -28,5 +28,7 @@ PROPS["C27"] = dict(
     assumptions=["the Myers search itself is not modelled: the script recovered from the implementation's ops is checked instead",
                  "update_list / update_map are proved for one level of the recursion (the per-entry update is assumed to reach "
                  "its target: the induction hypothesis); nested values are covered by the direct check",
-                 "batch_create_eq_stepwise is not proved (direct comparison only)"],
+                 "batch_create_eq_stepwise is not proved (direct comparison only)",
+                 "update_object is compared up to the sign of a float zero: put(k, -0.0) over a register showing 0.0 is a no-op "
+                 "by design (resolve_action compares with f64 ==), bulk construction is compared bit for bit"],
 )
